@@ -14,7 +14,7 @@ probe at their entry instead (a function-local object cannot be named at file sc
 import os
 import re
 
-KEEP = {'pfn_malloc', 'pfn_free', 'jwt_ops', 'jwt_ops_available'}   # written only by explicit set calls
+KEEP = {'pfn_malloc', 'pfn_free', 'jwt_ops', 'jwt_ops_available', 'jwt_gnutls_ops', 'jwt_openssl_ops', 'jwt_mbedtls_ops'}   # written only by explicit set calls
 
 
 def ident(unit, name):
